@@ -134,7 +134,11 @@ class Ctx:
         # remember which case produced the value (for the replay file of a cross-hash-seed disagreement)
         cur = getattr(self, 'current_case', None)
         if cur is not None and len(self.case_of) < 30000:
-            self.case_of[case_id] = cur
+            try:
+                json.dumps(cur)
+                self.case_of[case_id] = cur
+            except TypeError:
+                pass
 
     def mine(self, i):
         """Case slicing between workers (only used when workers do not all run everything)."""
